@@ -515,6 +515,25 @@ def select_units(units, prop, tier, only=None):
         if only and only not in u['name']:
             continue
         sel.append(u)
+    # self-test runs only: a mutant that touches nothing but lib/*.c files cannot change the verdict of a unit
+    # that does not compile any of them, so those units (identical to the baseline run) are skipped
+    touched = [x for x in os.environ.get('VERIF_TOUCHED_SRC', '').split(',') if x]
+    if touched:
+        def cincs(path, seen):
+            if path in seen or not os.path.exists(path):
+                return set()
+            seen.add(path)
+            txt = open(path).read()
+            out = set(os.path.basename(x) for x in re.findall(r'#\s*include "([^"]+\.c)"', txt))
+            for h in re.findall(r'#\s*include "([^"]+\.h)"', txt):
+                for d in (os.path.dirname(path), os.path.join(VERIF, 'include'), os.path.join(VERIF, 'stubs')):
+                    out |= cincs(os.path.join(d, h), seen)
+            return out
+        tb = set(os.path.basename(t) for t in touched)
+        sel2 = [u for u in sel
+                if tb & (set(os.path.basename(x) for x in u.get('src', [])) | cincs(u['path'], set()))]
+        if sel2:
+            sel = sel2
     return sel
 
 
@@ -770,6 +789,9 @@ def selftest(prop, verbose=False):
             if pr.returncode != 0:
                 return {'mutant': os.path.basename(pt), 'result': 'MISSED (patch does not apply)', 'first_failed_obligation': None}
             env = dict(os.environ, VERIF_REPO=m, VERIF_NO_EVIDENCE='1')
+            files = re.findall(r'^\+\+\+ (?:b/)?(\S+)', open(pt).read(), re.M)
+            if files and all(f.startswith('lib/') and f.endswith('.c') for f in files):
+                env['VERIF_TOUCHED_SRC'] = ','.join(files)
             r = subprocess.run([sys.executable, os.path.abspath(__file__), prop, '--tier', 'quick', '-j', '4'], env=env,
                                stdout=subprocess.PIPE, stderr=subprocess.STDOUT, text=True)
             caught = r.returncode == 1 and 'VIOLATION' in r.stdout
